@@ -149,7 +149,9 @@ struct Problem
     VecL lam;               // all reference eigenvalues of the pencil, ascending
     MatL V;                 // reference eigenvectors, V'BV = I
     std::vector<Index> wanted;  // indices into lam of the k eigenvalues the solver should return
-    ld lminB = 1, lmaxB = 1, normA = 0, normB = 1, gap_abs = 0, cmin = 0, rho = 1;
+    MatL Vw;                // the wanted reference eigenvectors
+    ld lminB = 1, lmaxB = 1, normA = 0, normB = 1, gap_abs = 0, rho = 1;
+    ld cmin = 0;            // cosine of the largest principal angle between the block compute() starts from and span(Vw)
 };
 
 static ld col_norm(const MatL& M, Index j)
@@ -158,6 +160,25 @@ static ld col_norm(const MatL& M, Index j)
     for (Index i = 0; i < M.rows(); i++)
         s += M(i, j) * M(i, j);
     return std::sqrt(s);
+}
+
+// cosine of the largest principal angle (B inner product) between span(Xp) and the wanted eigenspace span(Vw); -1 if Xp is
+// (numerically) rank deficient relative to `scale` = largest eigenvalue of the unprojected Gram matrix
+static ld cos_max_angle(const MatL& Xp, const MatL& Vw, const MatL& Bl, ld scale)
+{
+    const Index k = Xp.cols();
+    if (!vf::all_finite(Xp))
+        return -1;
+    MatL Mx = Xp.transpose() * Bl * Xp;
+    Eigen::SelfAdjointEigenSolver<MatL> em(Mx);
+    if (scale <= 0)
+        scale = em.eigenvalues()[k - 1];
+    if (!(em.eigenvalues()[0] > 1e-12L * scale))
+        return -1;
+    MatL Mih = em.eigenvectors() * em.eigenvalues().cwiseSqrt().cwiseInverse().asDiagonal() * em.eigenvectors().transpose();
+    MatL Tm = Vw.transpose() * Bl * Xp * Mih;
+    Eigen::JacobiSVD<MatL> st(Tm);
+    return st.singularValues()[k - 1];
 }
 
 // All oracle checks for one compute() call. `tol`, `maxit` are the arguments of that call.
@@ -258,7 +279,10 @@ static void check_outcome(Spectra::LOBPCGSolver<Real>& solver, const Problem& P,
     // ---- eigenvalues are the wanted ones of the reference pencil ---------------------------------------------
     // for ||x||_B = 1: min_j |theta - lambda_j| <= ||r|| / sqrt(lambda_min(B)); rounding term scaled by 1/lambda_min(B)
     const ld tolE = tolL2 / std::sqrt(P.lminB) + CTOL * (ld) n * EPS * (P.normA + thmax * P.normB) / P.lminB * its;
-    const bool identity = (P.cmin >= 1e-3L) && (tolE <= P.gap_abs / 8);
+    // "Which" eigenvalues can be asserted when (a) the tolerance separates neighbouring eigenvalues and (b) the residual test cannot be
+    // met next to an unwanted eigenvector: a block at angle acos(c) from the wanted space has a residual of about c*gap*sqrt(lambda_min(B))
+    // there, and the block compute() started from had c = cmin (a sound iteration only increases it).
+    const bool identity = (P.cmin >= 1e-3L) && (tolE <= P.gap_abs / 8) && (4 * tolL2 <= P.cmin * P.gap_abs * std::sqrt(P.lminB));
     ld worst_ev = 0;
     {
         // feature for the known-finding signature: is every returned value a genuine reference eigenvalue (wherever it sits)?
@@ -636,24 +660,17 @@ static void run_case(vf::Draw& d, vf::Case& c)
             MatL YBY = Yl.transpose() * BY;
             Xp = X0l - Yl * YBY.ldlt().solve(BY.transpose() * X0l);
         }
-        MatL Mx = Xp.transpose() * P.Bl * Xp;
-        Eigen::SelfAdjointEigenSolver<MatL> em(Mx);
         Eigen::SelfAdjointEigenSolver<MatL> e0(MatL(X0l.transpose() * P.Bl * X0l), Eigen::EigenvaluesOnly);
-        if (!(em.eigenvalues()[0] > 1e-12L * e0.eigenvalues()[k - 1]))
+        P.cmin = cos_max_angle(Xp, Vw, P.Bl, e0.eigenvalues()[k - 1]);
+        if (P.cmin < 0)
         {
             // a start column lies in the span of the constraint vectors: the block the solver iterates on is rank deficient
             c.rejected = true;
             c.cls("start_rank_deficient_after_constraints");
             return;
         }
-        else
-        {
-            MatL Mih = em.eigenvectors() * em.eigenvalues().cwiseSqrt().cwiseInverse().asDiagonal() * em.eigenvectors().transpose();
-            MatL Tm = Vw.transpose() * P.Bl * Xp * Mih;
-            Eigen::JacobiSVD<MatL> st(Tm);
-            P.cmin = st.singularValues()[k - 1];
-        }
     }
+    P.Vw = Vw;
 
     // ---- compute() arguments -----------------------------------------------------------------------------------------
     const int min_e = (sizeof(Real) == 4) ? 5 : ((sizeof(Real) == 8) ? 11 : 14);
@@ -794,6 +811,27 @@ static void run_case(vf::Draw& d, vf::Case& c)
     if (second)
     {
         c.feat["info_before_second"] = solver.info();
+        {
+            // the second compute() starts from the current iterate (projected against Y again)
+            const SpMat& Xs = Spectra::verif::Access::iterate(solver);
+            P.cmin = 0;
+            if (Xs.rows() == n && Xs.cols() == k)
+            {
+                MatL Xp = widen_sp(Xs);
+                if (vf::all_finite(Xp))
+                {
+                    if (P.hasY)
+                    {
+                        MatL Yl = widen_sp(P.Y);
+                        MatL BY = P.Bl * Yl;
+                        MatL YBY = Yl.transpose() * BY;
+                        Xp = (Xp - Yl * YBY.ldlt().solve(BY.transpose() * Xp)).eval();
+                    }
+                    P.cmin = std::max<ld>(0, cos_max_angle(Xp, P.Vw, P.Bl, 0));
+                }
+            }
+            c.feat["cmin_before_second"] = (double) P.cmin;
+        }
         ok2 = one(maxit2, tol2, "c2.");
         c.feat["success2"] = ok2;
         if (ok1 && ok2)
@@ -849,8 +887,9 @@ static std::string match_(const vf::Violation& v, const vf::Case& c)
     if (v.kind == "eigen_assert" && v.detail.find("invalid matrix product") != std::string::npos && c.f("stage") == 2 && c.f("success1") == 0)
         return "lobpcg_unset_bx_after_failed_orthonormalisation";
     // KF-C17-3 (provisional): Success reported for an iterate that is not B-orthonormal
-    if (v.kind == "iterate_b_orthonormality")
-        return "lobpcg_false_success_iterate_not_orthonormal";
+    for (const char* tag : {"c1.", "c2."})
+        if (v.kind == "iterate_b_orthonormality" && v.detail.compare(0, 3, tag) == 0 && (c.f(std::string(tag) + "coef_rows") > c.f("k") || c.f("stage") == 2))
+            return "lobpcg_false_success_iterate_not_orthonormal";
     return "";
 }
 
